@@ -32,7 +32,7 @@ import (
 const (
 	jobEnv       = "VERIF_C14_JOB"
 	exitHang     = 97
-	defaultBound = 20 * time.Second // generous per-call bound; ×10 on the solitary re-run
+	defaultBound = 10 * time.Second // generous per-call bound; ×10 on the solitary re-run
 	headroomMiB  = 4096
 )
 
@@ -70,12 +70,15 @@ type sumRec struct {
 	Evals       int64            `json:"evals"`
 	Classes     map[string]int64 `json:"classes"`
 	Skipped     map[string]int64 `json:"skipped"`
-	Hashes      string           `json:"hashes"` // 8-byte prefixes of sha256(target‖input)
+	Hashes      string           `json:"hashes"`  // 8-byte prefixes of sha256(target‖input)
 	Repeats     map[string]int64 `json:"repeats"` // violation key -> further inputs with the same key
 	ScryptCalls int64            `json:"scrypt_calls"`
 	SlowestUS   int64            `json:"slowest_us"`
 	SlowestIdx  int              `json:"slowest_idx"`
 	MaxLen      int              `json:"max_len"`
+	SampleIdx   int              `json:"sample_idx"`
+	SampleIn    string           `json:"sample_input"`
+	SampleClass string           `json:"sample_class"`
 	VmLimitKB   uint64           `json:"vm_limit_kb"`
 	LimitErr    string           `json:"limit_err,omitempty"`
 }
@@ -190,7 +193,7 @@ func callGuarded(t *target, in []byte, o *obs) (v *violRec) {
 		if !ok {
 			pe = &propErr{Key: "target-error", What: err.Error()}
 		}
-		return &violRec{Kind: "property", Key: "property:" + t.name + ":" + pe.Key, What: pe.What}
+		return &violRec{Kind: "property", Key: "property:" + pe.Key, What: "target " + t.name + ": " + pe.What}
 	}
 	return nil
 }
@@ -306,6 +309,9 @@ func childMain(spec string) {
 			sum.LimitErr = err.Error()
 		}
 	}
+	// nothing in the library recurses deeply: a runaway recursion is reported
+	// after 128 MiB of stack instead of the default 1 GiB
+	debug.SetMaxStack(128 << 20)
 	bound := time.Duration(j.BoundMS) * time.Millisecond
 	if bound <= 0 {
 		bound = defaultBound
@@ -390,6 +396,9 @@ func childMain(spec string) {
 					sum.Classes[cls]++
 				} else {
 					sum.Classes["(other)"]++
+				}
+				if sum.SampleIn == "" && len(in) > 0 {
+					sum.SampleIdx, sum.SampleIn, sum.SampleClass = i, fmt.Sprintf("%.160q", in), cls
 				}
 				first := false
 				if v != nil {
